@@ -3,7 +3,7 @@ from . import modecommon, C03
 from ..facts import Module
 
 LEVEL = "other"
-RM = {"NARROW": "R-C08-ABSORB", "KEYINIT": "R-C08-KEY", "KEYINJ": "R-C08-KEY", "SMALLIO": "R-C08-SMALL", "SMALLMEM": "R-C08-SMALL", "RT": "R-C08-PASS", "LEN": "R-C08-LEN", "ADVANCE": "R-C08-LOCKSTEP", "TAGPOS": "R-C08-END", "INPLACE": "R-C08-INPLACE", "INRANGE": "R-C08-READS"}
+RM = {"NONCEARG": "R-C08-NONCE", "NARROW": "R-C08-ABSORB", "KEYINIT": "R-C08-KEY", "KEYINJ": "R-C08-KEY", "SMALLIO": "R-C08-SMALL", "SMALLMEM": "R-C08-SMALL", "RT": "R-C08-PASS", "LEN": "R-C08-LEN", "ADVANCE": "R-C08-LOCKSTEP", "TAGPOS": "R-C08-END", "INPLACE": "R-C08-INPLACE", "INRANGE": "R-C08-READS"}
 PAIR = {"MODE": "R-C08-PASS", "PREFIX": "R-C08-PASS1", "NONCE2": "R-C08-NONCE", "SETUPFN": "R-C08-SETUPFN", "SETUPSENS": "R-C08-SETUPFN"}
 
 
